@@ -395,10 +395,14 @@ class ProgGen:
                 self.stmts.append("const %s = %d;" % (name, rng.getrandbits(rng.choice([3, 8, 40]))))
                 self.env.append((name, None, True))
         # pc bank
-        start = 0
+        # the pc usually advances by one instruction per cycle; sometimes it starts elsewhere, creeps,
+        # or stays put for the whole run (the same bytes fetched again and again while the data port
+        # may store into them)
+        start = rng.choice([0, 0, 0, 0, 8, 16, 21])
+        stride = k["stride"] if rng.random() < 0.7 else rng.choice([0, 0, 1, 3])
         self.stmts.append("register pP { pc : 64 = %d; cyc : 16 = 0; }" % start)
         self.env += [("P_pc", 64, False), ("P_cyc", 16, False)]
-        self.stmts.append("p_pc = P_pc + %d;" % k["stride"])
+        self.stmts.append("p_pc = P_pc + %d;" % stride)
         self.stmts.append("p_cyc = P_cyc + 1;")
         # extra banks: outputs are available from the start
         n_banks = k["n_banks"] if k["n_banks"] is not None else rng.choice([0, 0, 1, 2, 3])
@@ -419,6 +423,10 @@ class ProgGen:
                 dt = str(d) if rng.random() < 0.6 else "0x%x" % d
                 if rng.random() < 0.2 and w < 127:
                     dt = rng.choice(["-1", "~0", str((1 << w) + d), "-(%d)" % (d + 1)])   # truncated to the register's width
+                if rng.random() < 0.15:
+                    # an initial value computed from the constants (it obeys the width rules like any expression)
+                    ceg = ExprGen(rng, [e for e in self.env if e[2]], allow_div=False)
+                    dt = to_text(ceg.gen(("compat", w), rng.randint(1, 2)), rng)
                 regs.append((rname, w, dt))
                 self.env.append(("%s_%s" % (lo, rname), w, False))
             banks.append((li, lo, regs))
@@ -439,6 +447,14 @@ class ProgGen:
             for sig in ("stall", "bubble"):
                 if rng.random() < 0.7:
                     tasks.append(("ctl", "%s_%s" % (sig, lo)))
+        if k["halt_at"] is None and rng.random() < 0.25:
+            tasks.append(("ctl", "stall_P"))      # the pc bank itself held now and then
+        # control signals the program leaves unassigned are 0 throughout and may be read
+        assigned_ctl = set(t[1] for t in tasks if t[0] == "ctl")
+        for lo in sorted(set(lo for li, lo, regs in banks) | {"P"}):
+            for sig in ("stall", "bubble"):
+                if "%s_%s" % (sig, lo) not in assigned_ctl:
+                    self.env.append(("%s_%s" % (sig, lo), 1, False))
         rng.shuffle(tasks)
         have_i10 = False
         for t in tasks:
@@ -485,6 +501,9 @@ class ProgGen:
 
     def addr_expr(self):
         rng = self.rng
+        if rng.random() < 0.2:
+            # at, just below, or inside the instruction being fetched
+            return "(P_pc %s %d)" % (rng.choice(["+", "-"]), rng.randint(0, 12))
         if self.k["small_addr"] and rng.random() < 0.8:
             small = [n for n, w, c in self.env if not c and w is not None and w >= 4]
             if small:
